@@ -389,6 +389,114 @@ Proof.
   split; [split; assumption|]. rewrite LE. f_equal. lia.
 Qed.
 
+(* ================================================================ Part 2b: the BlockReader *)
+
+Lemma nmem_nadd x y l : nmem x (nadd y l) = (x =? y) || nmem x l.
+Proof.
+  unfold nadd. destruct (nmem y l) eqn:E; cbn.
+  - destruct (N.eqb_spec x y); [subst; rewrite E; reflexivity|reflexivity].
+  - unfold nmem. cbn. rewrite N.eqb_sym. reflexivity.
+Qed.
+
+Lemma nmax_acc l : forall a, fold_left N.max l a = N.max a (fold_left N.max l 0).
+Proof.
+  induction l as [|x l IH]; intro a; cbn; [lia|]. rewrite IH, (IH (N.max 0 x)). lia.
+Qed.
+
+Lemma nmax_ge x l : nmem x l = true -> x <= nmax l.
+Proof.
+  unfold nmax. induction l as [|y l IH]; cbn; [discriminate|].
+  rewrite nmax_acc. destruct (N.eqb_spec x y); cbn; [subst; lia|]. intro H. specialize (IH H). lia.
+Qed.
+
+Lemma nmax_le k l : (forall x, nmem x l = true -> x <= k) -> nmax l <= k.
+Proof.
+  unfold nmax. induction l as [|y l IH]; intro H; cbn; [lia|].
+  rewrite nmax_acc. assert (y <= k) by (apply H; cbn; rewrite N.eqb_refl; reflexivity).
+  assert (fold_left N.max l 0 <= k).
+  { apply IH. intros x X. apply H. unfold nmem in *. cbn. rewrite X. apply orb_true_r. }
+  lia.
+Qed.
+
+(* every block ever read is still stored, and the blocks read are exactly the decoded prefix *)
+Definition b_intact (b : bstate) : Prop :=
+  (forall x, nmem x (b_read b) = (x <? b_dec b)) /\
+  (forall x, nmem x (b_read b) = true -> nmem x (b_blocks b) = true).
+
+(* every block of the file can be read at any time: a plain file, or a streamed file whose drops were
+   disabled before anything was dropped *)
+Definition reads_total (b : bstate) : Prop :=
+  b_stream b = false \/ (b_stream b = true /\ b_drop b = false /\ b_intact b).
+
+Lemma reads_total_init_plain : reads_total (b_init false).
+Proof. left. reflexivity. Qed.
+
+Lemma b_intact_lru_put bo b : b_intact b -> b_intact (b_lru_put bo b).
+Proof. intro I. exact I. Qed.
+
+Lemma b_stream_loop_total fuel refd : forall b bo bo_at old,
+  b_stream b = true -> b_drop b = false -> b_intact b ->
+  bo_at <= b_dec b -> b_dec b <= bo_at + 1 -> b_dec b <= bo ->
+  (N.to_nat (bo + 1 - bo_at) < fuel)%nat ->
+  exists b', b_stream_loop fuel refd b bo bo_at old = (b', BFound) /\
+             b_stream b' = true /\ b_drop b' = false /\ b_intact b'.
+Proof.
+  induction fuel as [|k IH]; intros b bo bo_at old ST DR (I1 & I2) L1 L2 L3 FU; [lia|].
+  cbn [b_stream_loop]. destruct (N.leb_spec bo_at bo) as [Q|Q]; [|lia].
+  destruct (nmem bo_at (b_read b)) eqn:M.
+  - (* already decoded: bo_at = dec - 1 *)
+    rewrite I1 in M. apply N.ltb_lt in M.
+    destruct (N.eqb_spec bo_at bo); [lia|].
+    apply IH; cbn; auto; try lia. split; assumption.
+  - rewrite I1 in M. apply N.ltb_ge in M. assert (E : b_dec b = bo_at) by lia.
+    cbn [b_cnt_up b_dec]. rewrite E, N.eqb_refl. cbn [negb].
+    set (b1 := b_store bo_at _).
+    assert (ST1 : b_stream b1 = true) by exact ST.
+    assert (DR1 : b_drop b1 = false) by exact DR.
+    assert (IN1 : b_intact b1).
+    { subst b1. unfold b_store, b_lru_put. split; cbn [b_read b_dec b_blocks].
+      - intro x. rewrite nmem_nadd, I1, E. destruct (N.eqb_spec x bo_at); destruct (N.ltb_spec x bo_at);
+          destruct (N.ltb_spec x (bo_at + 1)); cbn; auto; lia.
+      - intro x. rewrite !nmem_nadd. destruct (x =? bo_at); cbn [orb]; [auto|]. apply I2. }
+    assert (DB : forall o, (if o <? bo_at then b_drop_block refd b1 o else b1) = b1).
+    { intro o. destruct (o <? bo_at); [|reflexivity]. unfold b_drop_block. rewrite DR1. reflexivity. }
+    rewrite DB. destruct (N.eqb_spec bo_at bo) as [EQ|NE].
+    + exists b1. auto.
+    + apply IH; auto; cbn; try lia.
+Qed.
+
+Lemma b_read_block_total refd filesz last b bo : reads_total b -> bo <= last -> 0 < filesz ->
+  exists b', b_read_block refd filesz last b bo = (b', BFound) /\ reads_total b'.
+Proof.
+  intros T L F. unfold b_read_block. destruct (N.ltb_spec last bo); [lia|].
+  destruct (nmem bo (b_lru b)) eqn:ML.
+  { eexists. split; [reflexivity|]. destruct T as [T|(T1 & T2 & T3)]; [left; exact T|right; repeat split; auto; apply T3]. }
+  destruct (N.eqb_spec filesz 0); [lia|].
+  destruct T as [T|(T1 & T2 & (I1 & I2))].
+  - (* plain *)
+    cbn [b_cnt_up b_read b_blocks b_stream]. rewrite T.
+    destruct (nmem bo (b_read b)); [destruct (nmem bo (b_blocks b))|]; cbn [b_stream]; rewrite ?T;
+      eexists; (split; [reflexivity|left; cbn; rewrite ?T; reflexivity]).
+  - cbn [b_cnt_up b_read b_blocks b_stream]. rewrite T1.
+    destruct (nmem bo (b_read b)) eqn:MR.
+    + rewrite (I2 _ MR). eexists. split; [reflexivity|]. right. repeat split; auto.
+    + pose proof MR as MR'. rewrite I1 in MR'. apply N.ltb_ge in MR'.
+      set (b0 := b_cnt_up e_miss (b_cnt_up e_lru_miss b)).
+      assert (IN0 : b_intact b0) by (split; assumption).
+      set (m := nmax (b_read b0)).
+      assert (M1 : m <= b_dec b0 /\ b_dec b0 <= m + 1).
+      { subst m. cbn [b_read b0 b_cnt_up b_dec]. destruct (N.eq_dec (b_dec b) 0) as [Z|Z].
+        - assert (nmax (b_read b) <= 0); [|lia]. apply nmax_le. intros x X. rewrite I1, Z in X. apply N.ltb_lt in X. lia.
+        - assert (A : b_dec b - 1 <= nmax (b_read b)).
+          { apply nmax_ge. rewrite I1. apply N.ltb_lt. lia. }
+          assert (B : nmax (b_read b) <= b_dec b - 1).
+          { apply nmax_le. intros x X. rewrite I1 in X. apply N.ltb_lt in X. lia. }
+          lia. }
+      destruct (b_stream_loop_total (S (S (N.to_nat (bo - m)))) refd b0 bo m m T1 T2 IN0 (proj1 M1) (proj2 M1) MR' ltac:(lia))
+        as (b' & E & S' & D' & I').
+      exists b'. split; [exact E|]. right. auto.
+Qed.
+
 (* ================================================================ Part 3: LineReader *)
 
 Section LineReaderProofs.
@@ -405,13 +513,13 @@ Section LineReaderProofs.
     | LD => False
     end.
 
-  Record lr_inv (st : lr_state) : Prop := mk_lr_inv {
-    li_lines : forall k s, alookup k (l_lines st) = Some s -> exists e, sline_ok s k e;
-    li_foend : forall e b, In (e, b) (l_foend st) -> span f b e;
-    li_link : forall k s e, alookup k (l_lines st) = Some s -> span f k e -> In (e, k) (l_foend st);
-    li_lru : forall k r, alookup k (l_lru st) = Some r -> lres_entry_ok k r }.
+  Record lr_inv0 (st : lr_state) : Prop := mk_lr_inv0 {
+    li0_lines : forall k s, alookup k (l_lines st) = Some s -> exists e, sline_ok s k e;
+    li0_foend : forall e b, In (e, b) (l_foend st) -> span f b e;
+    li0_link : forall k s e, alookup k (l_lines st) = Some s -> span f k e -> In (e, k) (l_foend st);
+    li0_lru : forall k r, alookup k (l_lru st) = Some r -> lres_entry_ok k r }.
 
-  Lemma lr_inv_init : lr_inv lr_init.
+  Lemma lr_inv0_init : lr_inv0 lr_init.
   Proof. split; cbn; intros; try discriminate; contradiction. Qed.
 
   (* the answer of find_line at fo *)
@@ -420,15 +528,15 @@ Section LineReaderProofs.
     then exists s, r = Found (line_end f fo + 1, s) /\ sline_ok s (line_beg f fo) (line_end f fo)
     else r = Done.
 
-  Lemma lr_inv_maps st st' : l_lines st' = l_lines st -> l_foend st' = l_foend st -> l_lru st' = l_lru st ->
-    lr_inv st -> lr_inv st'.
+  Lemma lr_inv0_maps st st' : l_lines st' = l_lines st -> l_foend st' = l_foend st -> l_lru st' = l_lru st ->
+    lr_inv0 st -> lr_inv0 st'.
   Proof. intros A B C [I1 I2 I3 I4]. split; rewrite ?A, ?B, ?C; assumption. Qed.
 
-  Lemma lr_inv_cnt g st : lr_inv st -> lr_inv (lr_cnt g st).
-  Proof. apply lr_inv_maps; reflexivity. Qed.
+  Lemma lr_inv0_cnt g st : lr_inv0 st -> lr_inv0 (lr_cnt g st).
+  Proof. apply lr_inv0_maps; reflexivity. Qed.
 
-  Lemma lr_inv_set_lru c st : lr_inv st ->
-    (forall k r, alookup k c = Some r -> lres_entry_ok k r) -> lr_inv (lr_set_lru c st).
+  Lemma lr_inv0_set_lru c st : lr_inv0 st ->
+    (forall k r, alookup k c = Some r -> lres_entry_ok k r) -> lr_inv0 (lr_set_lru c st).
   Proof. intros [I1 I2 I3 I4] H. split; cbn; assumption. Qed.
 
   Lemma entry_of_ok fo s : fo < lenN f -> sline_ok s (line_beg f fo) (line_end f fo) ->
@@ -438,12 +546,12 @@ Section LineReaderProofs.
     exists (line_beg f fo), (line_end f fo). auto.
   Qed.
 
-  Lemma lr_put_inv st fo r : lr_inv st -> lres_entry_ok fo r -> lr_inv (lr_put st fo r).
+  Lemma lr_put_inv st fo r : lr_inv0 st -> lres_entry_ok fo r -> lr_inv0 (lr_put st fo r).
   Proof.
     intros I R. unfold lr_put. destruct (l_on st); [|exact I].
-    apply lr_inv_cnt. apply lr_inv_set_lru; [exact I|].
+    apply lr_inv0_cnt. apply lr_inv0_set_lru; [exact I|].
     intros k x X. apply lru_put_lookup in X as [[-> ->]|[_ X]]; [exact R|].
-    eapply li_lru; eauto.
+    eapply li0_lru; eauto.
   Qed.
 
   Lemma entry_result fo r : lres_entry_ok fo r -> fo < lenN f -> lres_ok fo (lres_result r).
@@ -460,19 +568,19 @@ Section LineReaderProofs.
     destruct SP as (_ & E & _). lia.
   Qed.
 
-  Lemma lr_check_lru_ok st fo st' o : lr_inv st -> lr_check_lru st fo = (st', o) ->
-    lr_inv st' /\ match o with Some r => lres_entry_ok fo r | None => True end.
+  Lemma lr_check_lru_ok0 st fo st' o : lr_inv0 st -> lr_check_lru st fo = (st', o) ->
+    lr_inv0 st' /\ match o with Some r => lres_entry_ok fo r | None => True end.
   Proof.
     intros I. unfold lr_check_lru. destruct (l_on st).
     - destruct (lru_get fo (l_lru st)) as [[r|] c] eqn:G; intro H; inversion H; subst.
       + apply lru_get_Some in G as [A B]. split.
-        * apply lr_inv_cnt. apply lr_inv_set_lru; [exact I|]. intros k x X. eapply li_lru; eauto.
-        * eapply li_lru; eauto.
-      + split; [apply lr_inv_cnt; exact I|exact Logic.I].
+        * apply lr_inv0_cnt. apply lr_inv0_set_lru; [exact I|]. intros k x X. eapply li0_lru; eauto.
+        * eapply li0_lru; eauto.
+      + split; [apply lr_inv0_cnt; exact I|exact Logic.I].
     - intro H; inversion H; subst. split; [exact I|exact Logic.I].
   Qed.
 
-  Lemma get_linep_sound st fo s : lr_inv st -> lr_get_linep st fo = Some s ->
+  Lemma get_linep_sound0 st fo s : lr_inv0 st -> lr_get_linep st fo = Some s ->
     exists b e, sline_ok s b e /\ b <= fo /\ fo <= e /\ alookup b (l_lines st) = Some s /\
                 afirst_ge fo (l_foend st) = Some (e, b).
   Proof.
@@ -480,29 +588,29 @@ Section LineReaderProofs.
     destruct (afirst_ge fo (l_foend st)) as [[e b]|] eqn:A; [|discriminate].
     destruct (N.ltb_spec fo b); [discriminate|]. intro L.
     destruct (afirst_ge_spec _ _ _ _ A) as (A1 & A2 & _).
-    pose proof (li_foend st I _ _ A2) as SP.
-    destruct (li_lines st I _ _ L) as (e' & S').
+    pose proof (li0_foend st I _ _ A2) as SP.
+    destruct (li0_lines st I _ _ L) as (e' & S').
     assert (e' = e) by (destruct S' as [SP' _]; eapply span_unique_e; eauto). subst e'.
     exists b, e. auto.
   Qed.
 
   (* completeness of check_store: a stored line that contains fo is found *)
-  Lemma get_linep_complete st fo b e s : lr_inv st -> alookup b (l_lines st) = Some s -> span f b e ->
+  Lemma get_linep_complete0 st fo b e s : lr_inv0 st -> alookup b (l_lines st) = Some s -> span f b e ->
     b <= fo -> fo <= e -> alookup fo (l_lines st) <> None \/ lr_get_linep st fo <> None.
   Proof.
     intros I L SP B1 B2. right. unfold lr_get_linep.
-    pose proof (li_link st I _ _ _ L SP) as IN.
+    pose proof (li0_link st I _ _ _ L SP) as IN.
     destruct (afirst_ge fo (l_foend st)) as [[e2 b2]|] eqn:A.
     - destruct (afirst_ge_spec _ _ _ _ A) as (A1 & A2 & A3).
-      pose proof (li_foend st I _ _ A2) as SP2.
+      pose proof (li0_foend st I _ _ A2) as SP2.
       specialize (A3 _ _ IN B2).
       destruct (span_end_inside f b e b2 e2 SP SP2 ltac:(lia) A3) as [-> ->].
       destruct (N.ltb_spec fo b); [lia|]. rewrite L. discriminate.
     - pose proof (afirst_ge_None _ _ A _ _ IN). lia.
   Qed.
 
-  Lemma lr_answer_ok st fo s p st' r p' b e : lr_inv st -> sline_ok s b e -> b <= fo -> fo <= e ->
-    lr_answer st fo bs s p = (st', r, p') -> lr_inv st' /\ lres_ok fo r.
+  Lemma lr_answer_ok st fo s p st' r p' b e : lr_inv0 st -> sline_ok s b e -> b <= fo -> fo <= e ->
+    lr_answer st fo bs s p = (st', r, p') -> lr_inv0 st' /\ lres_ok fo r.
   Proof.
     intros I S B1 B2. unfold lr_answer.
     destruct (line_ok_facts bs f _ _ _ S) as (_ & LE & _). unfold sl_parts in *. rewrite LE.
@@ -515,29 +623,29 @@ Section LineReaderProofs.
       exists s. split; [reflexivity|split; assumption].
   Qed.
 
-  Lemma lr_check_store_ok st fo o st2 : lr_inv st -> lr_check_store bs st fo = (o, st2) ->
+  Lemma lr_check_store_ok st fo o st2 : lr_inv0 st -> lr_check_store bs st fo = (o, st2) ->
     match o with
-    | Some (st', r, _) => lr_inv st' /\ lres_ok fo r
-    | None => lr_inv st2 /\ alookup fo (l_lines st2) = None /\ lr_get_linep st2 fo = None /\
+    | Some (st', r, _) => lr_inv0 st' /\ lres_ok fo r
+    | None => lr_inv0 st2 /\ alookup fo (l_lines st2) = None /\ lr_get_linep st2 fo = None /\
               l_lines st2 = l_lines st /\ l_foend st2 = l_foend st
     end.
   Proof.
     intros I. unfold lr_check_store.
     destruct (alookup fo (l_lines st)) as [s|] eqn:L.
     - intro H. injection H as <- <-. destruct (lr_answer _ _ _ _ _) as [[st' r] p'] eqn:A.
-      destruct (li_lines st I _ _ L) as (e & S).
-      eapply (lr_answer_ok _ fo s PLines st' r p' fo e); [apply lr_inv_cnt; exact I|exact S|lia| |exact A].
+      destruct (li0_lines st I _ _ L) as (e & S).
+      eapply (lr_answer_ok _ fo s PLines st' r p' fo e); [apply lr_inv0_cnt; exact I|exact S|lia| |exact A].
       destruct S as [(? & _) _]. assumption.
     - destruct (lr_get_linep (lr_cnt lc_miss_up st) fo) as [s|] eqn:G.
       + intro H. injection H as <- <-. destruct (lr_answer _ _ _ _ _) as [[st' r] p'] eqn:A.
-        assert (I' : lr_inv (lr_cnt lc_miss_up st)) by (apply lr_inv_cnt; exact I).
-        destruct (get_linep_sound _ _ _ I' G) as (b & e & S & B1 & B2 & _).
+        assert (I' : lr_inv0 (lr_cnt lc_miss_up st)) by (apply lr_inv0_cnt; exact I).
+        destruct (get_linep_sound0 _ _ _ I' G) as (b & e & S & B1 & B2 & _).
         eapply lr_answer_ok; eauto.
-      + intro H. injection H as <- <-. split; [apply lr_inv_cnt; exact I|]. cbn. auto.
+      + intro H. injection H as <- <-. split; [apply lr_inv0_cnt; exact I|]. cbn. auto.
   Qed.
 
-  Lemma lr_insert_line_ok st ps b e : lr_inv st -> line_ok bs f ps b e ->
-    exists st', lr_insert_line bs st ps = Some (st', (l_nid st, ps)) /\ lr_inv st' /\
+  Lemma lr_insert_line_ok0 st ps b e : lr_inv0 st -> line_ok bs f ps b e ->
+    exists st', lr_insert_line bs st ps = Some (st', (l_nid st, ps)) /\ lr_inv0 st' /\
                 l_on st' = l_on st /\ l_lru st' = l_lru st.
   Proof.
     intros I S. unfold lr_insert_line.
@@ -546,25 +654,25 @@ Section LineReaderProofs.
     destruct S as [SP C]. split; cbn.
     - intros k s. rewrite alookup_ainsert. destruct (N.eqb_spec k b).
       + intro H; inversion H; subst. exists e. split; assumption.
-      + apply (li_lines st I).
+      + apply (li0_lines st I).
     - intros e' b' IN. apply In_ainsert in IN as [IN|IN].
       + inversion IN; subst. exact SP.
-      + eapply li_foend; eauto.
+      + eapply li0_foend; eauto.
     - intros k s e'. rewrite alookup_ainsert. destruct (N.eqb_spec k b).
       + intros _ SP'. subst k. rewrite (span_unique_e f b e' e SP' SP). apply In_ainsert_new.
-      + intros L SP'. pose proof (li_link st I _ _ _ L SP') as IN.
+      + intros L SP'. pose proof (li0_link st I _ _ _ L SP') as IN.
         destruct (N.eq_dec e' e) as [->|NE].
         * exfalso. apply n. eapply span_unique_b; eauto.
         * apply In_ainsert_old; assumption.
-    - apply (li_lru st I).
+    - apply (li0_lru st I).
   Qed.
 
-  Lemma lr_store_found_ok st fo ps p st' r p' : lr_inv st -> fo < lenN f ->
+  Lemma lr_store_found_ok st fo ps p st' r p' : lr_inv0 st -> fo < lenN f ->
     line_ok bs f ps (line_beg f fo) (line_end f fo) ->
-    lr_store_found bs st fo (line_end f fo + 1) ps p = (st', r, p') -> lr_inv st' /\ lres_ok fo r.
+    lr_store_found bs st fo (line_end f fo + 1) ps p = (st', r, p') -> lr_inv0 st' /\ lres_ok fo r.
   Proof.
     intros I L S. unfold lr_store_found.
-    destruct (lr_insert_line_ok st ps _ _ I S) as (st1 & E & I1 & _). rewrite E.
+    destruct (lr_insert_line_ok0 st ps _ _ I S) as (st1 & E & I1 & _). rewrite E.
     intro H; inversion H; subst. split.
     - apply lr_put_inv; [exact I1|]. apply entry_of_ok; assumption.
     - unfold lres_ok. destruct (N.ltb_spec fo (lenN f)); [|lia].
@@ -572,7 +680,7 @@ Section LineReaderProofs.
   Qed.
 
   (* the line that follows a stored line which ends at fo-1 begins at fo *)
-  Lemma prev_line_ends st fo : lr_inv st -> 0 < fo -> fo < lenN f ->
+  Lemma prev_line_ends st fo : lr_inv0 st -> 0 < fo -> fo < lenN f ->
     alookup fo (l_lines st) = None -> lr_get_linep st fo = None ->
     (alookup (fo - 1) (l_lines st) <> None \/ lr_get_linep st (fo - 1) <> None) ->
     line_beg f fo = fo.
@@ -581,15 +689,15 @@ Section LineReaderProofs.
     assert (X : exists b e s, alookup b (l_lines st) = Some s /\ span f b e /\ b <= fo - 1 /\ fo - 1 <= e).
     { destruct K as [K|K].
       - destruct (alookup (fo - 1) (l_lines st)) as [s|] eqn:A; [|congruence].
-        destruct (li_lines st I _ _ A) as (e & [SP _]). exists (fo - 1), e, s.
+        destruct (li0_lines st I _ _ A) as (e & [SP _]). exists (fo - 1), e, s.
         split; [exact A|]. split; [exact SP|]. split; [lia|]. destruct SP as (? & _); assumption.
       - destruct (lr_get_linep st (fo - 1)) as [s|] eqn:A; [|congruence].
-        destruct (get_linep_sound _ _ _ I A) as (b & e & [SP _] & B1 & B2 & LK & _).
+        destruct (get_linep_sound0 _ _ _ I A) as (b & e & [SP _] & B1 & B2 & LK & _).
         exists b, e, s. split; [exact LK|]. split; [exact SP|]. split; assumption. }
     destruct X as (b & e & s & LK & SP & B1 & B2).
     destruct (N.eq_dec e (fo - 1)) as [E|E].
     - pose proof (span_next_beg f b e SP ltac:(lia)) as NB. replace (e + 1) with fo in NB by lia. exact NB.
-    - exfalso. destruct (get_linep_complete st fo b e s I LK SP ltac:(lia) ltac:(lia)); congruence.
+    - exfalso. destruct (get_linep_complete0 st fo b e s I LK SP ltac:(lia) ltac:(lia)); congruence.
   Qed.
 
   Lemma first_line_beg fo : fo = 0 -> line_beg f fo = 0.
@@ -613,70 +721,205 @@ Section LineReaderProofs.
     unfold block_offset_at_file_offset in *. rewrite <- EQ in C. exact C.
   Qed.
 
-  Theorem c_find_line_ok st fo st' r p : lr_inv st -> c_find_line bs f st fo = (st', r, p) ->
-    lr_inv st' /\ lres_ok fo r.
+  (* ---------------------------------------------------------------- reads through the LineReader *)
+
+  Definition lr_tot (st : lr_state) : Prop := reads_total (l_blk st).
+
+  Definition same_maps (st st' : lr_state) : Prop :=
+    l_lines st' = l_lines st /\ l_foend st' = l_foend st /\ l_lru st' = l_lru st /\ l_on st' = l_on st /\
+    l_nid st' = l_nid st /\ l_cnt st' = l_cnt st /\ l_ext st' = l_ext st.
+
+  Lemma same_maps_refl st : same_maps st st. Proof. repeat split. Qed.
+  Lemma same_maps_trans a b c : same_maps a b -> same_maps b c -> same_maps a c.
+  Proof. intros (A1 & A2 & A3 & A4 & A5 & A6 & A7) (B1 & B2 & B3 & B4 & B5 & B6 & B7). repeat split; congruence. Qed.
+
+  Lemma same_maps_inv st st' : same_maps st st' -> lr_inv0 st -> lr_inv0 st'.
+  Proof. intros (A1 & A2 & A3 & _). apply lr_inv0_maps; assumption. Qed.
+
+  Lemma same_maps_linep st st' x : same_maps st st' -> lr_get_linep st' x = lr_get_linep st x.
+  Proof. intros (A1 & A2 & _). unfold lr_get_linep. rewrite A1, A2. reflexivity. Qed.
+
+  Definition blast : N := blockoffset_last (lenN f) bs.
+
+  Lemma lr_read_ok st inprog bo st' r : lr_read bs f st inprog bo = (st', r) ->
+    same_maps st st' /\ (lr_tot st -> bo <= blast -> 0 < lenN f -> r = BFound /\ lr_tot st').
+  Proof.
+    unfold lr_read. destruct (b_read_block _ _ _ _ _) as [b x] eqn:E. intro H; injection H as <- <-.
+    split; [repeat split|]. intros T L F.
+    destruct (b_read_block_total (lr_refd st inprog) (lenN f) blast (l_blk st) bo T L F) as (b' & E' & T').
+    unfold blast in E'. rewrite E in E'. injection E' as -> ->. split; [reflexivity|exact T'].
+  Qed.
+
+  Lemma lr_reads_fwd_ok n : forall st lo b st' r, lr_reads_fwd n bs f st lo b = (st', r) ->
+    same_maps st st' /\ (lr_tot st -> b + N.of_nat n <= blast + 1 -> 0 < lenN f -> r = BFound /\ lr_tot st').
+  Proof.
+    induction n as [|n IH]; intros st lo b st' r; cbn [lr_reads_fwd].
+    - intro H; injection H as <- <-. split; [apply same_maps_refl|auto].
+    - destruct (lr_read bs f st _ b) as [st1 r1] eqn:R.
+      destruct (lr_read_ok _ _ _ _ _ R) as (M1 & T1).
+      destruct r1.
+      + intro H. destruct (IH _ _ _ _ _ H) as (M2 & T2). split; [eapply same_maps_trans; eauto|].
+        intros T L F. destruct (T1 T ltac:(lia) F) as (_ & T'). apply T2; auto. lia.
+      + intro H; injection H as <- <-. split; [exact M1|]. intros T L F. destruct (T1 T ltac:(lia) F) as (X & _). discriminate.
+      + intro H; injection H as <- <-. split; [exact M1|]. intros T L F. destruct (T1 T ltac:(lia) F) as (X & _). discriminate.
+      + intro H; injection H as <- <-. split; [exact M1|]. intros T L F. destruct (T1 T ltac:(lia) F) as (X & _). discriminate.
+  Qed.
+
+  Lemma lr_reads_bwd_ok n : forall st b st' r, lr_reads_bwd n bs f st b = (st', r) ->
+    same_maps st st' /\ (lr_tot st -> b <= blast -> 0 < lenN f -> r = BFound /\ lr_tot st').
+  Proof.
+    induction n as [|n IH]; intros st b st' r; cbn [lr_reads_bwd].
+    - intro H; injection H as <- <-. split; [apply same_maps_refl|auto].
+    - destruct (lr_read bs f st _ b) as [st1 r1] eqn:R.
+      destruct (lr_read_ok _ _ _ _ _ R) as (M1 & T1).
+      destruct r1.
+      + intro H. destruct (IH _ _ _ _ H) as (M2 & T2). split; [eapply same_maps_trans; eauto|].
+        intros T L F. destruct (T1 T L F) as (_ & T'). apply T2; auto. lia.
+      + intro H; injection H as <- <-. split; [exact M1|]. intros T L F. destruct (T1 T L F) as (X & _). discriminate.
+      + intro H; injection H as <- <-. split; [exact M1|]. intros T L F. destruct (T1 T L F) as (X & _). discriminate.
+      + intro H; injection H as <- <-. split; [exact M1|]. intros T L F. destruct (T1 T L F) as (X & _). discriminate.
+  Qed.
+
+  (* the helpers of find_line do not touch the BlockReader *)
+  Lemma blk_put st fo r : l_blk (lr_put st fo r) = l_blk st.
+  Proof. unfold lr_put. destruct (l_on st); reflexivity. Qed.
+  Lemma blk_check_lru st fo st' o : lr_check_lru st fo = (st', o) -> l_blk st' = l_blk st.
+  Proof.
+    unfold lr_check_lru. destruct (l_on st); [|intro H; injection H as <- _; reflexivity].
+    destruct (lru_get fo (l_lru st)) as [[x|] c]; intro H; injection H as <- _; reflexivity.
+  Qed.
+  Lemma blk_answer st fo s p st' r p' : lr_answer st fo bs s p = (st', r, p') -> l_blk st' = l_blk st.
+  Proof.
+    unfold lr_answer. destruct (line_fo_end bs (sl_parts s)); intro H; injection H as <- _ _; [apply blk_put|reflexivity].
+  Qed.
+  Lemma blk_check_store st fo o st2 : lr_check_store bs st fo = (o, st2) ->
+    l_blk st2 = l_blk st /\ match o with Some (st', _, _) => l_blk st' = l_blk st | None => True end.
+  Proof.
+    unfold lr_check_store. destruct (alookup fo (l_lines st)).
+    - intro H; injection H as <- <-. split; [reflexivity|]. destruct (lr_answer _ _ _ _ _) as [[a b] c] eqn:E.
+      apply blk_answer in E. exact E.
+    - destruct (lr_get_linep _ fo).
+      + intro H; injection H as <- <-. split; [reflexivity|]. destruct (lr_answer _ _ _ _ _) as [[a b] c] eqn:E.
+        apply blk_answer in E. exact E.
+      + intro H; injection H as <- <-. auto.
+  Qed.
+  Lemma blk_store_found st fo n ps p st' r p' : lr_store_found bs st fo n ps p = (st', r, p') -> l_blk st' = l_blk st.
+  Proof.
+    unfold lr_store_found, lr_insert_line.
+    destruct (line_fo_begin bs ps); [destruct (line_fo_end bs ps)|]; intro H; injection H as <- _ _; rewrite ?blk_put; reflexivity.
+  Qed.
+
+  (* a block the search needs is gone (streamed file): read_block returned Done, find_line returns Done;
+     Panic stands for the two outcomes of read_block_FileXx that StreamProofs shows unreachable *)
+  Definition lgone (r : res (N * sline)) (p : lpath) : Prop :=
+    (r = Done /\ p = PGone) \/ (r = Panic /\ p = PFail).
+
+  Lemma bfwd_range fo e : fo <= e -> e < lenN f ->
+    block_offset_at_file_offset fo bs +
+    N.of_nat (S (N.to_nat (block_offset_at_file_offset e bs - block_offset_at_file_offset fo bs))) <= blast + 1.
+  Proof.
+    intros L1 L2. unfold block_offset_at_file_offset.
+    pose proof (div_mono fo e bs Hbs L1). pose proof (blockoffset_last_ge (lenN f) bs e Hbs L2). fold blast in H0.
+    rewrite Nat2N.inj_succ, N2Nat.id. lia.
+  Qed.
+
+  Theorem c_find_line_ok0 st fo st' r p : lr_inv0 st -> c_find_line bs f st fo = (st', r, p) ->
+    lr_inv0 st' /\ (lres_ok fo r \/ lgone r p) /\ (lr_tot st -> lr_tot st' /\ lres_ok fo r).
   Proof.
     intros I. unfold c_find_line.
     destruct (lr_check_lru st fo) as [st1 [x|]] eqn:CL.
-    - destruct (lr_check_lru_ok _ _ _ _ I CL) as [I1 R]. intro H; injection H as <- <- <-.
-      split; [exact I1|]. apply entry_result; [exact R|eapply entry_lt; eauto].
-    - destruct (lr_check_lru_ok _ _ _ _ I CL) as [I1 _].
+    - destruct (lr_check_lru_ok0 _ _ _ _ I CL) as [I1 R]. pose proof (blk_check_lru _ _ _ _ CL) as B1.
+      intro H; injection H as <- <- <-.
+      assert (RR : lres_ok fo (lres_result x)) by (apply entry_result; [exact R|eapply entry_lt; eauto]).
+      split; [exact I1|]. split; [left; exact RR|]. intro T. split; [unfold lr_tot; rewrite B1; exact T|exact RR].
+    - destruct (lr_check_lru_ok0 _ _ _ _ I CL) as [I1 _]. pose proof (blk_check_lru _ _ _ _ CL) as B1.
+      assert (EOF : lenN f <= fo -> lres_ok fo Done).
+      { intro Q. unfold lres_ok. destruct (N.ltb_spec fo (lenN f)); [lia|reflexivity]. }
       destruct (N.eqb_spec (lenN f) 0) as [Z|Z]; cbn [orb].
-      { intro H; injection H as <- <- <-. split; [exact I1|]. unfold lres_ok. destruct (N.ltb_spec fo (lenN f)); [lia|reflexivity]. }
+      { intro H; injection H as <- <- <-. split; [exact I1|]. split; [left; apply EOF; lia|].
+        intro T. split; [unfold lr_tot; rewrite B1; exact T|apply EOF; lia]. }
       destruct (N.ltb_spec (lenN f) fo) as [Z2|Z2]; cbn [orb].
-      { intro H; injection H as <- <- <-. split; [exact I1|]. unfold lres_ok. destruct (N.ltb_spec fo (lenN f)); [lia|reflexivity]. }
+      { intro H; injection H as <- <- <-. split; [exact I1|]. split; [left; apply EOF; lia|].
+        intro T. split; [unfold lr_tot; rewrite B1; exact T|apply EOF; lia]. }
       destruct (N.eqb_spec fo (lenN f)) as [Z3|Z3].
-      { intro H; injection H as <- <- <-. split; [exact I1|]. unfold lres_ok. destruct (N.ltb_spec fo (lenN f)); [lia|reflexivity]. }
+      { intro H; injection H as <- <- <-. split; [exact I1|]. split; [left; apply EOF; lia|].
+        intro T. split; [unfold lr_tot; rewrite B1; exact T|apply EOF; lia]. }
       assert (L : fo < lenN f) by lia.
       destruct (lr_check_store bs st1 fo) as [[[[st2 r2] p2]|] st3] eqn:CS.
-      + pose proof (lr_check_store_ok _ _ _ _ I1 CS) as [I2 R2]. intro H; injection H as <- <- <-. auto.
-      + pose proof (lr_check_store_ok _ _ _ _ I1 CS) as (I3 & M1 & M2 & _).
+      + pose proof (lr_check_store_ok _ _ _ _ I1 CS) as [I2 R2]. destruct (blk_check_store _ _ _ _ CS) as [_ B2].
+        intro H; injection H as <- <- <-. split; [exact I2|]. split; [left; exact R2|].
+        intro T. split; [unfold lr_tot; rewrite B2, B1; exact T|exact R2].
+      + pose proof (lr_check_store_ok _ _ _ _ I1 CS) as (I3 & M1 & M2 & _). destruct (blk_check_store _ _ _ _ CS) as [B3 _].
         destruct (fwd_search_ok bs f fo (S (length f)) Hbs L (fuel_ok bs f Hbs ltac:(lia)))
           as (e & after & bme & FW & E & _ & _ & _ & MID & _). rewrite FW.
+        assert (EE : fo <= e /\ e < lenN f) by (destruct E as (? & ? & _); split; assumption).
+        destruct (lr_reads_fwd _ bs f st3 _ _) as [st4 rf] eqn:RF.
+        destruct (lr_reads_fwd_ok _ _ _ _ _ _ RF) as (SM & TF).
+        pose proof (same_maps_inv _ _ SM I3) as I4.
+        assert (TF' : lr_tot st -> rf = BFound /\ lr_tot st4).
+        { intro T. apply TF; [unfold lr_tot; rewrite B3, B1; exact T| |lia]. apply bfwd_range; lia. }
+        assert (M1' : alookup fo (l_lines st4) = None) by (destruct SM as (A & _); rewrite A; exact M1).
+        assert (M2' : lr_get_linep st4 fo = None) by (rewrite (same_maps_linep _ _ fo SM); exact M2).
+        destruct rf.
+        2:{ intro H; injection H as <- <- <-. split; [exact I4|]. split; [right; left; auto|]. intro T. destruct (TF' T) as (X & _). discriminate. }
+        2:{ intro H; injection H as <- <- <-. split; [exact I4|]. split; [right; right; auto|]. intro T. destruct (TF' T) as (X & _). discriminate. }
+        2:{ intro H; injection H as <- <- <-. split; [exact I4|]. split; [right; right; auto|]. intro T. destruct (TF' T) as (X & _). discriminate. }
+        assert (FIN : forall st5 st6 r6 p6 ps, lr_inv0 st5 -> l_blk st5 = l_blk st4 ->
+                  line_ok bs f ps (line_beg f fo) (line_end f fo) ->
+                  lr_store_found bs st5 fo (line_end f fo + 1) ps p6 = (st6, r6, p) ->
+                  lr_inv0 st6 /\ (lres_ok fo r6 \/ lgone r6 p) /\ (lr_tot st -> lr_tot st6 /\ lres_ok fo r6)).
+        { intros st5 st6 r6 p6 ps I5 B5 OK SF. destruct (lr_store_found_ok _ _ _ _ _ _ _ I5 L OK SF) as [I6 R6].
+          split; [exact I6|]. split; [left; exact R6|]. intro T. split; [|exact R6].
+          unfold lr_tot. rewrite (blk_store_found _ _ _ _ _ _ _ _ SF), B5. apply (TF' T). }
         destruct (N.eqb_spec fo 0) as [Z0|Z0].
         * (* A0 *)
           pose proof (first_line_beg fo Z0) as LB.
           specialize (MID (block_index_at_file_offset fo bs) ltac:(lia)).
           destruct (mid_line_ok fo e after bme L ltac:(lia) E MID) as [-> OK].
-          subst fo. intro H. eapply lr_store_found_ok; eauto.
+          subst fo. intro H. eapply FIN; eauto.
         * assert (MIDOK : line_beg f fo = fo ->
                    e = line_end f fo /\
                    line_ok bs f ((block_offset_at_file_offset fo bs, block_index_at_file_offset fo bs, bme + 1) :: after)
                            (line_beg f fo) (line_end f fo)).
           { intro LB. apply mid_line_ok; [exact L|exact LB|exact E|apply MID; lia]. }
-          destruct (alookup (fo - 1) (l_lines st3)) as [sp|] eqn:A1.
+          destruct (alookup (fo - 1) (l_lines st4)) as [sp|] eqn:A1.
           -- (* A1a *)
              assert (LB : line_beg f fo = fo).
-             { apply (prev_line_ends st3); auto; [lia|]. left. congruence. }
+             { apply (prev_line_ends st4); auto; [lia|]. left. congruence. }
              destruct (MIDOK LB) as [-> OK]. intro H.
-             eapply lr_store_found_ok; [apply lr_inv_cnt; exact I3|exact L|exact OK|exact H].
-          -- destruct (lr_get_linep (lr_cnt lc_miss_up st3) (fo - 1)) as [sp|] eqn:A2.
+             eapply (FIN (lr_cnt lc_hits_up st4)); [apply lr_inv0_cnt; exact I4|reflexivity|exact OK|exact H].
+          -- destruct (lr_get_linep (lr_cnt lc_miss_up st4) (fo - 1)) as [sp|] eqn:A2.
              ++ (* A1b *)
                 assert (LB : line_beg f fo = fo).
-                { apply (prev_line_ends st3); auto; [lia|]. right. unfold lr_get_linep in *. cbn in A2. congruence. }
+                { apply (prev_line_ends st4); auto; [lia|]. right. unfold lr_get_linep in *. cbn in A2. congruence. }
                 destruct (MIDOK LB) as [-> OK]. intro H.
-                eapply lr_store_found_ok; [apply lr_inv_cnt; exact I3|exact L|exact OK|exact H].
+                eapply (FIN (lr_cnt lc_miss_up st4)); [apply lr_inv0_cnt; exact I4|reflexivity|exact OK|exact H].
              ++ (* full search *)
                 destruct (search_ok bs f fo Hbs ltac:(lia) L e after bme FW) as (ps & BK & OK & LE).
-                rewrite BK. destruct (line_ok_facts bs f _ _ _ OK) as (_ & _ & _ & NE).
-                destruct ps as [|p0 ps]; [congruence|]. rewrite LE. intro H.
-                eapply lr_store_found_ok; [apply lr_inv_cnt; exact I3|exact L|exact OK|exact H].
-  Qed.
-
-  (* find_line never panics and never runs out of fuel *)
-  Corollary c_find_line_total st fo st' r p : lr_inv st -> c_find_line bs f st fo = (st', r, p) ->
-    r <> Panic /\ r <> OutOfFuel.
-  Proof.
-    intros I H. destruct (c_find_line_ok _ _ _ _ _ I H) as [_ R]. unfold lres_ok in R.
-    destruct (fo <? lenN f); [destruct R as (s & -> & _)|subst r]; split; discriminate.
+                rewrite BK. destruct (line_ok_facts bs f _ _ _ OK) as (LBG & _ & _ & NE).
+                destruct ps as [|p0 ps]; [congruence|]. rewrite LBG, LE.
+                destruct (lr_reads_bwd _ bs f (lr_cnt lc_miss_up st4) _) as [st5 rb] eqn:RB.
+                destruct (lr_reads_bwd_ok _ _ _ _ _ RB) as (SM5 & TB).
+                pose proof (same_maps_inv _ _ SM5 (lr_inv0_cnt _ _ I4)) as I5.
+                assert (TB' : lr_tot st -> rb = BFound /\ lr_tot st5).
+                { intro T. apply TB; [exact (proj2 (TF' T))| |lia].
+                  pose proof (blockoffset_last_ge (lenN f) bs fo Hbs L) as Q. fold blast in Q.
+                  unfold block_offset_at_file_offset. lia. }
+                destruct rb.
+                ** intro H. destruct (lr_store_found_ok _ _ _ _ _ _ _ I5 L OK H) as [I6 R6].
+                   split; [exact I6|]. split; [left; exact R6|]. intro T. split; [|exact R6].
+                   unfold lr_tot. rewrite (blk_store_found _ _ _ _ _ _ _ _ H). apply (TB' T).
+                ** intro H; injection H as <- <- <-. split; [exact I5|]. split; [right; left; auto|]. intro T. destruct (TB' T) as (X & _). discriminate.
+                ** intro H; injection H as <- <- <-. split; [exact I5|]. split; [right; right; auto|]. intro T. destruct (TB' T) as (X & _). discriminate.
+                ** intro H; injection H as <- <- <-. split; [exact I5|]. split; [right; right; auto|]. intro T. destruct (TB' T) as (X & _). discriminate.
   Qed.
 
   (* ---------------------------------------------------------------- find_line_in_block *)
 
-  Lemma lr_fresh_line_inv st ps st' s : lr_inv st -> lr_fresh_line st ps = (st', s) -> lr_inv st' /\ s = (l_nid st, ps).
+  Lemma lr_fresh_line_inv0 st ps st' s : lr_inv0 st -> lr_fresh_line st ps = (st', s) -> lr_inv0 st' /\ s = (l_nid st, ps).
   Proof.
     intros I H. unfold lr_fresh_line in H. injection H as <- <-. split; [|reflexivity].
-    eapply lr_inv_maps; [| | |exact I]; reflexivity.
+    eapply lr_inv0_maps; [| | |exact I]; reflexivity.
   Qed.
 
   (* what find_line_in_block may answer: the spec line, or Done (the line is not inside the block) *)
@@ -694,140 +937,195 @@ Section LineReaderProofs.
     - intros ->. exact Logic.I.
   Qed.
 
-  Theorem c_find_line_in_block_ok st fo st' r part p : lr_inv st ->
-    c_find_line_in_block bs f st fo = (st', (r, part), p) -> lr_inv st' /\ lres_in_block_ok fo r.
+  Lemma c_flib_core_blk st fo st' x p : c_flib_core bs f st fo = (st', x, p) -> l_blk st' = l_blk st.
+  Proof.
+    unfold c_flib_core. cbv zeta.
+    repeat match goal with
+    | |- context [lr_store_found ?a ?b ?c ?d ?e ?g] => destruct (lr_store_found a b c d e g) as [[? ?] ?] eqn:?SF
+    | |- context [lr_fresh_line ?a ?b] => destruct (lr_fresh_line a b) as [? ?] eqn:?FL
+    | |- context [if ?X then _ else _] => destruct X
+    | |- context [match ?X with _ => _ end] => destruct X
+    end;
+    intro H; injection H as <- _ _;
+    try (match goal with SF : lr_store_found _ _ _ _ _ _ = _ |- _ => apply blk_store_found in SF; exact SF end);
+    try (match goal with FL : lr_fresh_line _ _ = _ |- _ => unfold lr_fresh_line in FL; injection FL as <- _; reflexivity end);
+    reflexivity.
+  Qed.
+
+  Lemma c_flib_core_ok st3 fo st' r part p : lr_inv0 st3 -> fo < lenN f ->
+    alookup fo (l_lines st3) = None -> lr_get_linep st3 fo = None ->
+    c_flib_core bs f st3 fo = (st', (r, part), p) -> lr_inv0 st' /\ lres_in_block_ok fo r.
+  Proof.
+    intros I3 L M1 M2. unfold c_flib_core.
+    destruct (fwd_search_ok bs f fo (S (length f)) Hbs L (fuel_ok bs f Hbs ltac:(lia)))
+      as (e & after & bme & FW & E & B1 & B2 & _ & MID & CASES & NOAFTER).
+    cbv zeta in *.
+    set (bo := block_offset_at_file_offset fo bs) in *.
+    set (bi := block_index_at_file_offset fo bs) in *.
+    destruct (nthN (block bs f bo) bi) as [x0|] eqn:X0.
+    2:{ exfalso. unfold fwd_search in FW. fold bo bi in FW. rewrite X0 in FW. discriminate. }
+    assert (LE : e = line_end f fo) by (symmetry; apply line_end_char; exact E).
+    destruct CASES as [(d & FN & BM)|[(FN & BL & BM)|(FN & BL & BM)]]; rewrite FN.
+    1,2: (destruct NOAFTER as [-> EE]; [first [right; congruence|left; assumption]|]).
+    3: (destruct (N.eqb_spec bo (blockoffset_last (lenN f) bs)); [contradiction|]).
+    1,2: (try (destruct (N.eqb_spec bo (blockoffset_last (lenN f) bs)); [|contradiction]);
+          unfold file_offset_at_block_offset_index, file_offset_at_block_offset;
+          rewrite <- ?BM; rewrite <- EE;
+          (destruct (N.eqb_spec fo 0) as [Z0|Z0];
+           [ (* A0 *)
+             pose proof (first_line_beg fo Z0) as LB;
+             destruct (mid_line_ok fo e [] bme L ltac:(lia) E (MID bi ltac:(lia))) as [_ OK];
+             cbn [negb]; destruct (lr_store_found _ _ _ _ _ _) as [[st5 r5] p5] eqn:SF;
+             intro H; injection H as <- <- <- <-; subst fo;
+             rewrite LE in SF;
+             destruct (lr_store_found_ok _ _ _ _ _ _ _ I3 L OK SF) as [I5 R5];
+             split; [exact I5|apply lres_ok_in_block; exact R5]
+           | ])).
+    * (* newline B inside the block, fo > 0 *)
+      destruct (alookup (fo - 1) (l_lines st3)) as [sp|] eqn:A1.
+      -- assert (LB : line_beg f fo = fo).
+         { apply (prev_line_ends st3); auto; [lia|]. left. congruence. }
+         destruct (mid_line_ok fo e [] bme L LB E (MID bi ltac:(lia))) as [_ OK].
+         destruct (lr_store_found _ _ _ _ _ _) as [[st5 r5] p5] eqn:SF.
+         intro H; injection H as <- <- <- <-. rewrite LE in SF.
+         destruct (lr_store_found_ok _ _ _ _ _ _ _ (lr_inv0_cnt lc_hits_up _ I3) L OK SF) as [I5 R5].
+         split; [exact I5|apply lres_ok_in_block; exact R5].
+      -- destruct (lr_get_linep (lr_cnt lc_miss_up st3) (fo - 1)) as [sp|] eqn:A2.
+         ++ assert (LB : line_beg f fo = fo).
+            { apply (prev_line_ends st3); auto; [lia|]. right. unfold lr_get_linep in *. cbn in A2. congruence. }
+            destruct (mid_line_ok fo e [] bme L LB E (MID bi ltac:(lia))) as [_ OK].
+            destruct (lr_store_found _ _ _ _ _ _) as [[st5 r5] p5] eqn:SF.
+            intro H; injection H as <- <- <- <-. rewrite LE in SF.
+            destruct (lr_store_found_ok _ _ _ _ _ _ _ (lr_inv0_cnt lc_miss_up _ I3) L OK SF) as [I5 R5].
+            split; [exact I5|apply lres_ok_in_block; exact R5].
+         ++ destruct (search_ok bs f fo Hbs ltac:(lia) L e [] bme FW) as (ps & BK & OK & _).
+            unfold back_search in BK. fold bo bi in BK.
+            destruct (N.eqb_spec (block_offset_at_file_offset (fo - 1) bs) bo) as [EB|EB]; cbn [negb].
+            2:{ intro H; injection H as <- <- <- <-. split; [apply lr_inv0_cnt; exact I3|exact Logic.I]. }
+            destruct (rfind_nl (firstnN (block_index_at_file_offset (fo - 1) bs + 1) (block bs f bo))) as [i|] eqn:RF.
+            ** injection BK as <-.
+               destruct (lr_fresh_line _ _) as [st5 s5] eqn:FL.
+               destruct (lr_fresh_line_inv0 _ _ _ _ (lr_inv0_cnt lc_miss_up _ I3) FL) as [I5 ->].
+               intro H; injection H as <- <- <- <-. split; [exact I5|].
+               cbn. unfold lres_ok. destruct (N.ltb_spec fo (lenN f)); [|lia].
+               eexists. rewrite LE. split; [reflexivity|exact OK].
+            ** destruct (N.eqb_spec (block_offset_at_file_offset (fo - 1) bs) 0) as [Z1|Z1]; cbn [negb] in BK.
+               --- injection BK as <-.
+                   destruct (lr_fresh_line _ _) as [st5 s5] eqn:FL.
+                   destruct (lr_fresh_line_inv0 _ _ _ _ (lr_inv0_cnt lc_miss_up _ I3) FL) as [I5 ->].
+                   intro H; injection H as <- <- <- <-. split; [exact I5|].
+                   cbn. unfold lres_ok. destruct (N.ltb_spec fo (lenN f)); [|lia].
+                   eexists. rewrite LE. split; [reflexivity|exact OK].
+               --- intro H; injection H as <- <- <- <-. split; [apply lr_inv0_cnt; exact I3|exact Logic.I].
+    * (* end of file inside the last block, fo > 0 *)
+      destruct (alookup (fo - 1) (l_lines st3)) as [sp|] eqn:A1.
+      -- assert (LB : line_beg f fo = fo).
+         { apply (prev_line_ends st3); auto; [lia|]. left. congruence. }
+         destruct (mid_line_ok fo e [] bme L LB E (MID bi ltac:(lia))) as [_ OK].
+         destruct (lr_store_found _ _ _ _ _ _) as [[st5 r5] p5] eqn:SF.
+         intro H; injection H as <- <- <- <-. rewrite LE in SF.
+         destruct (lr_store_found_ok _ _ _ _ _ _ _ (lr_inv0_cnt lc_hits_up _ I3) L OK SF) as [I5 R5].
+         split; [exact I5|apply lres_ok_in_block; exact R5].
+      -- destruct (lr_get_linep (lr_cnt lc_miss_up st3) (fo - 1)) as [sp|] eqn:A2.
+         ++ assert (LB : line_beg f fo = fo).
+            { apply (prev_line_ends st3); auto; [lia|]. right. unfold lr_get_linep in *. cbn in A2. congruence. }
+            destruct (mid_line_ok fo e [] bme L LB E (MID bi ltac:(lia))) as [_ OK].
+            destruct (lr_store_found _ _ _ _ _ _) as [[st5 r5] p5] eqn:SF.
+            intro H; injection H as <- <- <- <-. rewrite LE in SF.
+            destruct (lr_store_found_ok _ _ _ _ _ _ _ (lr_inv0_cnt lc_miss_up _ I3) L OK SF) as [I5 R5].
+            split; [exact I5|apply lres_ok_in_block; exact R5].
+         ++ destruct (search_ok bs f fo Hbs ltac:(lia) L e [] bme FW) as (ps & BK & OK & _).
+            unfold back_search in BK. fold bo bi in BK.
+            destruct (N.eqb_spec (block_offset_at_file_offset (fo - 1) bs) bo) as [EB|EB]; cbn [negb].
+            2:{ intro H; injection H as <- <- <- <-. split; [apply lr_inv0_cnt; exact I3|exact Logic.I]. }
+            destruct (rfind_nl (firstnN (block_index_at_file_offset (fo - 1) bs + 1) (block bs f bo))) as [i|] eqn:RF.
+            ** injection BK as <-.
+               destruct (lr_fresh_line _ _) as [st5 s5] eqn:FL.
+               destruct (lr_fresh_line_inv0 _ _ _ _ (lr_inv0_cnt lc_miss_up _ I3) FL) as [I5 ->].
+               intro H; injection H as <- <- <- <-. split; [exact I5|].
+               cbn. unfold lres_ok. destruct (N.ltb_spec fo (lenN f)); [|lia].
+               eexists. rewrite LE. split; [reflexivity|exact OK].
+            ** destruct (N.eqb_spec (block_offset_at_file_offset (fo - 1) bs) 0) as [Z1|Z1]; cbn [negb] in BK.
+               --- injection BK as <-.
+                   destruct (lr_fresh_line _ _) as [st5 s5] eqn:FL.
+                   destruct (lr_fresh_line_inv0 _ _ _ _ (lr_inv0_cnt lc_miss_up _ I3) FL) as [I5 ->].
+                   intro H; injection H as <- <- <- <-. split; [exact I5|].
+                   cbn. unfold lres_ok. destruct (N.ltb_spec fo (lenN f)); [|lia].
+                   eexists. rewrite LE. split; [reflexivity|exact OK].
+               --- intro H; injection H as <- <- <- <-. split; [apply lr_inv0_cnt; exact I3|exact Logic.I].
+    * (* partial line: nothing is stored *)
+      destruct (N.eqb_spec fo 0) as [Z0|Z0].
+      -- destruct (lr_fresh_line _ _) as [st5 s5] eqn:FL.
+         destruct (lr_fresh_line_inv0 _ _ _ _ I3 FL) as [I5 _].
+         intro H; injection H as <- <- <- <-. split; [exact I5|exact Logic.I].
+      -- destruct (negb (block_offset_at_file_offset (fo - 1) bs =? bo)).
+         { intro H; injection H as <- <- <- <-. split; [apply lr_inv0_cnt; exact I3|exact Logic.I]. }
+         destruct (match rfind_nl _ with Some i => Some (i + 1) | None => _ end) as [b|].
+         ++ destruct (lr_fresh_line _ _) as [st5 s5] eqn:FL.
+            destruct (lr_fresh_line_inv0 _ _ _ _ (lr_inv0_cnt lc_miss_up _ I3) FL) as [I5 _].
+            intro H; injection H as <- <- <- <-. split; [exact I5|exact Logic.I].
+         ++ intro H; injection H as <- <- <- <-. split; [apply lr_inv0_cnt; exact I3|exact Logic.I].
+  Qed.
+
+  Theorem c_find_line_in_block_ok0 st fo st' r part p : lr_inv0 st ->
+    c_find_line_in_block bs f st fo = (st', (r, part), p) ->
+    lr_inv0 st' /\ (lres_in_block_ok fo r \/ lgone r p) /\ (lr_tot st -> lr_tot st' /\ lres_in_block_ok fo r).
   Proof.
     intros I. unfold c_find_line_in_block.
     destruct (lr_check_lru st fo) as [st1 [x|]] eqn:CL.
-    - destruct (lr_check_lru_ok _ _ _ _ I CL) as [I1 R]. intro H; injection H as <- <- <- <-.
-      split; [exact I1|]. apply lres_ok_in_block. apply entry_result; [exact R|eapply entry_lt; eauto].
-    - destruct (lr_check_lru_ok _ _ _ _ I CL) as [I1 _].
+    - destruct (lr_check_lru_ok0 _ _ _ _ I CL) as [I1 R]. pose proof (blk_check_lru _ _ _ _ CL) as B1.
+      intro H; injection H as <- <- <- <-.
+      assert (RR : lres_in_block_ok fo (lres_result x)).
+      { apply lres_ok_in_block. apply entry_result; [exact R|eapply entry_lt; eauto]. }
+      split; [exact I1|]. split; [left; exact RR|]. intro T. split; [unfold lr_tot; rewrite B1; exact T|exact RR].
+    - destruct (lr_check_lru_ok0 _ _ _ _ I CL) as [I1 _]. pose proof (blk_check_lru _ _ _ _ CL) as B1.
       destruct (N.eqb_spec (lenN f) 0) as [Z|Z]; cbn [orb].
-      { intro H; injection H as <- <- <- <-. split; [exact I1|exact Logic.I]. }
+      { intro H; injection H as <- <- <- <-. split; [exact I1|]. split; [left; exact Logic.I|].
+        intro T. split; [unfold lr_tot; rewrite B1; exact T|exact Logic.I]. }
       destruct (N.ltb_spec (lenN f) fo) as [Z2|Z2]; cbn [orb].
-      { intro H; injection H as <- <- <- <-. split; [exact I1|exact Logic.I]. }
+      { intro H; injection H as <- <- <- <-. split; [exact I1|]. split; [left; exact Logic.I|].
+        intro T. split; [unfold lr_tot; rewrite B1; exact T|exact Logic.I]. }
       destruct (N.eqb_spec fo (lenN f)) as [Z3|Z3].
-      { intro H; injection H as <- <- <- <-. split; [exact I1|exact Logic.I]. }
+      { intro H; injection H as <- <- <- <-. split; [exact I1|]. split; [left; exact Logic.I|].
+        intro T. split; [unfold lr_tot; rewrite B1; exact T|exact Logic.I]. }
       assert (L : fo < lenN f) by lia.
       destruct (lr_check_store bs st1 fo) as [[[[st2 r2] p2]|] st3] eqn:CS.
-      + pose proof (lr_check_store_ok _ _ _ _ I1 CS) as [I2 R2]. intro H; injection H as <- <- <- <-.
-        split; [exact I2|apply lres_ok_in_block; exact R2].
-      + pose proof (lr_check_store_ok _ _ _ _ I1 CS) as (I3 & M1 & M2 & _).
-        destruct (fwd_search_ok bs f fo (S (length f)) Hbs L (fuel_ok bs f Hbs ltac:(lia)))
-          as (e & after & bme & FW & E & B1 & B2 & _ & MID & CASES & NOAFTER).
-        cbv zeta in *.
-        set (bo := block_offset_at_file_offset fo bs) in *.
-        set (bi := block_index_at_file_offset fo bs) in *.
-        destruct (nthN (block bs f bo) bi) as [x0|] eqn:X0.
-        2:{ exfalso. unfold fwd_search in FW. fold bo bi in FW. rewrite X0 in FW. discriminate. }
-        assert (LE : e = line_end f fo) by (symmetry; apply line_end_char; exact E).
-        destruct CASES as [(d & FN & BM)|[(FN & BL & BM)|(FN & BL & BM)]]; rewrite FN.
-        1,2: (destruct NOAFTER as [-> EE]; [first [right; congruence|left; assumption]|]).
-        3: (destruct (N.eqb_spec bo (blockoffset_last (lenN f) bs)); [contradiction|]).
-        1,2: (try (destruct (N.eqb_spec bo (blockoffset_last (lenN f) bs)); [|contradiction]);
-              unfold file_offset_at_block_offset_index, file_offset_at_block_offset;
-              rewrite <- ?BM; rewrite <- EE;
-              (destruct (N.eqb_spec fo 0) as [Z0|Z0];
-               [ (* A0 *)
-                 pose proof (first_line_beg fo Z0) as LB;
-                 destruct (mid_line_ok fo e [] bme L ltac:(lia) E (MID bi ltac:(lia))) as [_ OK];
-                 cbn [negb]; destruct (lr_store_found _ _ _ _ _ _) as [[st5 r5] p5] eqn:SF;
-                 intro H; injection H as <- <- <- <-; subst fo;
-                 rewrite LE in SF;
-                 destruct (lr_store_found_ok _ _ _ _ _ _ _ I3 L OK SF) as [I5 R5];
-                 split; [exact I5|apply lres_ok_in_block; exact R5]
-               | ])).
-        * (* newline B inside the block, fo > 0 *)
-          destruct (alookup (fo - 1) (l_lines st3)) as [sp|] eqn:A1.
-          -- assert (LB : line_beg f fo = fo).
-             { apply (prev_line_ends st3); auto; [lia|]. left. congruence. }
-             destruct (mid_line_ok fo e [] bme L LB E (MID bi ltac:(lia))) as [_ OK].
-             destruct (lr_store_found _ _ _ _ _ _) as [[st5 r5] p5] eqn:SF.
-             intro H; injection H as <- <- <- <-. rewrite LE in SF.
-             destruct (lr_store_found_ok _ _ _ _ _ _ _ (lr_inv_cnt lc_hits_up _ I3) L OK SF) as [I5 R5].
-             split; [exact I5|apply lres_ok_in_block; exact R5].
-          -- destruct (lr_get_linep (lr_cnt lc_miss_up st3) (fo - 1)) as [sp|] eqn:A2.
-             ++ assert (LB : line_beg f fo = fo).
-                { apply (prev_line_ends st3); auto; [lia|]. right. unfold lr_get_linep in *. cbn in A2. congruence. }
-                destruct (mid_line_ok fo e [] bme L LB E (MID bi ltac:(lia))) as [_ OK].
-                destruct (lr_store_found _ _ _ _ _ _) as [[st5 r5] p5] eqn:SF.
-                intro H; injection H as <- <- <- <-. rewrite LE in SF.
-                destruct (lr_store_found_ok _ _ _ _ _ _ _ (lr_inv_cnt lc_miss_up _ I3) L OK SF) as [I5 R5].
-                split; [exact I5|apply lres_ok_in_block; exact R5].
-             ++ destruct (search_ok bs f fo Hbs ltac:(lia) L e [] bme FW) as (ps & BK & OK & _).
-                unfold back_search in BK. fold bo bi in BK.
-                destruct (N.eqb_spec (block_offset_at_file_offset (fo - 1) bs) bo) as [EB|EB]; cbn [negb].
-                2:{ intro H; injection H as <- <- <- <-. split; [apply lr_inv_cnt; exact I3|exact Logic.I]. }
-                destruct (rfind_nl (firstnN (block_index_at_file_offset (fo - 1) bs + 1) (block bs f bo))) as [i|] eqn:RF.
-                ** injection BK as <-.
-                   destruct (lr_fresh_line _ _) as [st5 s5] eqn:FL.
-                   destruct (lr_fresh_line_inv _ _ _ _ (lr_inv_cnt lc_miss_up _ I3) FL) as [I5 ->].
-                   intro H; injection H as <- <- <- <-. split; [exact I5|].
-                   cbn. unfold lres_ok. destruct (N.ltb_spec fo (lenN f)); [|lia].
-                   eexists. rewrite LE. split; [reflexivity|exact OK].
-                ** destruct (N.eqb_spec (block_offset_at_file_offset (fo - 1) bs) 0) as [Z1|Z1]; cbn [negb] in BK.
-                   --- injection BK as <-.
-                       destruct (lr_fresh_line _ _) as [st5 s5] eqn:FL.
-                       destruct (lr_fresh_line_inv _ _ _ _ (lr_inv_cnt lc_miss_up _ I3) FL) as [I5 ->].
-                       intro H; injection H as <- <- <- <-. split; [exact I5|].
-                       cbn. unfold lres_ok. destruct (N.ltb_spec fo (lenN f)); [|lia].
-                       eexists. rewrite LE. split; [reflexivity|exact OK].
-                   --- intro H; injection H as <- <- <- <-. split; [apply lr_inv_cnt; exact I3|exact Logic.I].
-        * (* end of file inside the last block, fo > 0 *)
-          destruct (alookup (fo - 1) (l_lines st3)) as [sp|] eqn:A1.
-          -- assert (LB : line_beg f fo = fo).
-             { apply (prev_line_ends st3); auto; [lia|]. left. congruence. }
-             destruct (mid_line_ok fo e [] bme L LB E (MID bi ltac:(lia))) as [_ OK].
-             destruct (lr_store_found _ _ _ _ _ _) as [[st5 r5] p5] eqn:SF.
-             intro H; injection H as <- <- <- <-. rewrite LE in SF.
-             destruct (lr_store_found_ok _ _ _ _ _ _ _ (lr_inv_cnt lc_hits_up _ I3) L OK SF) as [I5 R5].
-             split; [exact I5|apply lres_ok_in_block; exact R5].
-          -- destruct (lr_get_linep (lr_cnt lc_miss_up st3) (fo - 1)) as [sp|] eqn:A2.
-             ++ assert (LB : line_beg f fo = fo).
-                { apply (prev_line_ends st3); auto; [lia|]. right. unfold lr_get_linep in *. cbn in A2. congruence. }
-                destruct (mid_line_ok fo e [] bme L LB E (MID bi ltac:(lia))) as [_ OK].
-                destruct (lr_store_found _ _ _ _ _ _) as [[st5 r5] p5] eqn:SF.
-                intro H; injection H as <- <- <- <-. rewrite LE in SF.
-                destruct (lr_store_found_ok _ _ _ _ _ _ _ (lr_inv_cnt lc_miss_up _ I3) L OK SF) as [I5 R5].
-                split; [exact I5|apply lres_ok_in_block; exact R5].
-             ++ destruct (search_ok bs f fo Hbs ltac:(lia) L e [] bme FW) as (ps & BK & OK & _).
-                unfold back_search in BK. fold bo bi in BK.
-                destruct (N.eqb_spec (block_offset_at_file_offset (fo - 1) bs) bo) as [EB|EB]; cbn [negb].
-                2:{ intro H; injection H as <- <- <- <-. split; [apply lr_inv_cnt; exact I3|exact Logic.I]. }
-                destruct (rfind_nl (firstnN (block_index_at_file_offset (fo - 1) bs + 1) (block bs f bo))) as [i|] eqn:RF.
-                ** injection BK as <-.
-                   destruct (lr_fresh_line _ _) as [st5 s5] eqn:FL.
-                   destruct (lr_fresh_line_inv _ _ _ _ (lr_inv_cnt lc_miss_up _ I3) FL) as [I5 ->].
-                   intro H; injection H as <- <- <- <-. split; [exact I5|].
-                   cbn. unfold lres_ok. destruct (N.ltb_spec fo (lenN f)); [|lia].
-                   eexists. rewrite LE. split; [reflexivity|exact OK].
-                ** destruct (N.eqb_spec (block_offset_at_file_offset (fo - 1) bs) 0) as [Z1|Z1]; cbn [negb] in BK.
-                   --- injection BK as <-.
-                       destruct (lr_fresh_line _ _) as [st5 s5] eqn:FL.
-                       destruct (lr_fresh_line_inv _ _ _ _ (lr_inv_cnt lc_miss_up _ I3) FL) as [I5 ->].
-                       intro H; injection H as <- <- <- <-. split; [exact I5|].
-                       cbn. unfold lres_ok. destruct (N.ltb_spec fo (lenN f)); [|lia].
-                       eexists. rewrite LE. split; [reflexivity|exact OK].
-                   --- intro H; injection H as <- <- <- <-. split; [apply lr_inv_cnt; exact I3|exact Logic.I].
-        * (* partial line: nothing is stored *)
-          destruct (N.eqb_spec fo 0) as [Z0|Z0].
-          -- destruct (lr_fresh_line _ _) as [st5 s5] eqn:FL.
-             destruct (lr_fresh_line_inv _ _ _ _ I3 FL) as [I5 _].
-             intro H; injection H as <- <- <- <-. split; [exact I5|exact Logic.I].
-          -- destruct (negb (block_offset_at_file_offset (fo - 1) bs =? bo)).
-             { intro H; injection H as <- <- <- <-. split; [apply lr_inv_cnt; exact I3|exact Logic.I]. }
-             destruct (match rfind_nl _ with Some i => Some (i + 1) | None => _ end) as [b|].
-             ++ destruct (lr_fresh_line _ _) as [st5 s5] eqn:FL.
-                destruct (lr_fresh_line_inv _ _ _ _ (lr_inv_cnt lc_miss_up _ I3) FL) as [I5 _].
-                intro H; injection H as <- <- <- <-. split; [exact I5|exact Logic.I].
-             ++ intro H; injection H as <- <- <- <-. split; [apply lr_inv_cnt; exact I3|exact Logic.I].
+      + pose proof (lr_check_store_ok _ _ _ _ I1 CS) as [I2 R2]. destruct (blk_check_store _ _ _ _ CS) as [_ B2].
+        intro H; injection H as <- <- <- <-.
+        split; [exact I2|]. split; [left; apply lres_ok_in_block; exact R2|].
+        intro T. split; [unfold lr_tot; rewrite B2, B1; exact T|apply lres_ok_in_block; exact R2].
+      + pose proof (lr_check_store_ok _ _ _ _ I1 CS) as (I3 & M1 & M2 & _). destruct (blk_check_store _ _ _ _ CS) as [B3 _].
+        destruct (lr_read bs f st3 (fun _ => false) (block_offset_at_file_offset fo bs)) as [st4 rr] eqn:RD.
+        destruct (lr_read_ok _ _ _ _ _ RD) as (SM & TR).
+        pose proof (same_maps_inv _ _ SM I3) as I4.
+        assert (TR' : lr_tot st -> rr = BFound /\ lr_tot st4).
+        { intro T. apply TR; [unfold lr_tot; rewrite B3, B1; exact T| |lia].
+          pose proof (blockoffset_last_ge (lenN f) bs fo Hbs L) as Q. exact Q. }
+        assert (M1' : alookup fo (l_lines st4) = None) by (destruct SM as (A & _); rewrite A; exact M1).
+        assert (M2' : lr_get_linep st4 fo = None) by (rewrite (same_maps_linep _ _ fo SM); exact M2).
+        destruct rr.
+        * intro H. destruct (c_flib_core_ok _ _ _ _ _ _ I4 L M1' M2' H) as [I5 R5].
+          split; [exact I5|]. split; [left; exact R5|]. intro T. split; [|exact R5].
+          unfold lr_tot. rewrite (c_flib_core_blk _ _ _ _ _ H). apply (TR' T).
+        * intro H; injection H as <- <- <- <-. split; [exact I4|]. split; [right; left; auto|]. intro T. destruct (TR' T) as (X & _). discriminate.
+        * intro H; injection H as <- <- <- <-. split; [exact I4|]. split; [right; right; auto|]. intro T. destruct (TR' T) as (X & _). discriminate.
+        * intro H; injection H as <- <- <- <-. split; [exact I4|]. split; [right; right; auto|]. intro T. destruct (TR' T) as (X & _). discriminate.
   Qed.
 
   (* ---------------------------------------------------------------- drops and switches *)
 
-  Lemma lr_drop_line_inv st s extra : lr_inv st -> lr_inv (lr_drop_line bs st s extra).
+  Lemma fold_set_blk_inv (g : lr_state -> part -> bstate) l : forall st, lr_inv0 st ->
+    lr_inv0 (fold_left (fun st p => lr_set_blk (g st p) st) l st).
+  Proof.
+    induction l as [|p l IH]; intros st I; cbn [fold_left]; [exact I|].
+    apply IH. eapply lr_inv0_maps; [| | |exact I]; reflexivity.
+  Qed.
+
+  Lemma lr_drop_line_inv0 st s extra : lr_inv0 st -> lr_inv0 (lr_drop_line bs st s extra).
   Proof.
     intros I. unfold lr_drop_line. destruct (line_fo_begin bs (sl_parts s)) as [key|]; [|exact I].
+    match goal with |- lr_inv0 (if ?h then ?X else _) => assert (I1 : lr_inv0 X);
+      [|destruct h; [exact I1|apply fold_set_blk_inv; exact I1]] end.
     destruct I as [I1 I2 I3 I4]. split; cbn.
     - intros k x X. apply alookup_aremove_Some in X. eauto.
     - exact I2.
@@ -835,14 +1133,118 @@ Section LineReaderProofs.
     - intros k x X. apply lru_pop_lookup in X. eauto.
   Qed.
 
-  Lemma lr_lru_enable_inv st : lr_inv st -> lr_inv (lr_lru_enable st).
+  Lemma b_drop_block_total refd b bo : reads_total b -> reads_total (b_drop_block refd b bo).
+  Proof.
+    intros [T|(T1 & T2 & T3)]; unfold b_drop_block.
+    - destruct (negb (b_drop b)); [left; exact T|left; exact T].
+    - rewrite T2. right. auto.
+  Qed.
+
+  Lemma lr_drop_line_tot st s extra : lr_tot st -> lr_tot (lr_drop_line bs st s extra).
+  Proof.
+    intros T. unfold lr_drop_line. destruct (line_fo_begin bs (sl_parts s)) as [key|]; [|exact T].
+    match goal with |- lr_tot (if ?h then _ else _) => destruct h end; [exact T|].
+    match goal with |- lr_tot (fold_left ?g ?l ?x) =>
+      assert (E : forall l0 st0, lr_tot st0 -> lr_tot (fold_left g l0 st0));
+        [induction l0 as [|a l0 IH]; intros st0 T0; cbn [fold_left]; [exact T0|apply IH; apply b_drop_block_total; exact T0]|] end.
+    apply E. exact T.
+  Qed.
+
+  Lemma lr_lru_enable_inv0 st : lr_inv0 st -> lr_inv0 (lr_lru_enable st).
   Proof.
     intros I. unfold lr_lru_enable. destruct (l_on st); [exact I|].
     destruct I as [I1 I2 I3 I4]. split; cbn; auto. intros; discriminate.
   Qed.
 
-  Lemma lr_lru_disable_inv st : lr_inv st -> lr_inv (lr_lru_disable st).
+  Lemma lr_lru_disable_inv0 st : lr_inv0 st -> lr_inv0 (lr_lru_disable st).
   Proof.
     intros [I1 I2 I3 I4]. split; cbn; auto. intros; discriminate.
   Qed.
+  (* ---------------------------------------------------------------- every read succeeds
+     lr_inv = the cache invariant AND the BlockReader can read every block of the file at any time (a
+     plain file; a streamed file with drops disabled before anything was dropped).  The theorems of
+     CachesSysProofs / CachesRunProofs / CachesGateProofs are stated for lr_inv. *)
+
+  Definition lr_inv (st : lr_state) : Prop := lr_inv0 st /\ lr_tot st.
+
+  Lemma li_lines st : lr_inv st -> forall k s, alookup k (l_lines st) = Some s -> exists e, sline_ok s k e.
+  Proof. intros [I _]. apply (li0_lines st I). Qed.
+
+  Lemma lr_inv_init : lr_inv lr_init.
+  Proof. split; [apply lr_inv0_init|left; reflexivity]. Qed.
+
+  Lemma lr_inv_maps st st' : l_lines st' = l_lines st -> l_foend st' = l_foend st -> l_lru st' = l_lru st ->
+    l_blk st' = l_blk st -> lr_inv st -> lr_inv st'.
+  Proof. intros A B C D [I T]. split; [eapply lr_inv0_maps; eauto|unfold lr_tot; rewrite D; exact T]. Qed.
+
+  Lemma lr_inv_cnt g st : lr_inv st -> lr_inv (lr_cnt g st).
+  Proof. intros [I T]. split; [apply lr_inv0_cnt; exact I|exact T]. Qed.
+
+  Lemma lr_check_lru_ok st fo st' o : lr_inv st -> lr_check_lru st fo = (st', o) ->
+    lr_inv st' /\ match o with Some r => lres_entry_ok fo r | None => True end.
+  Proof.
+    intros [I T] H. destruct (lr_check_lru_ok0 _ _ _ _ I H) as [I' R]. split; [|exact R].
+    split; [exact I'|unfold lr_tot; rewrite (blk_check_lru _ _ _ _ H); exact T].
+  Qed.
+
+  Lemma get_linep_sound st fo s : lr_inv st -> lr_get_linep st fo = Some s ->
+    exists b e, sline_ok s b e /\ b <= fo /\ fo <= e /\ alookup b (l_lines st) = Some s /\
+                afirst_ge fo (l_foend st) = Some (e, b).
+  Proof. intros [I _]. apply get_linep_sound0. exact I. Qed.
+
+  Lemma get_linep_complete st fo b e s : lr_inv st -> alookup b (l_lines st) = Some s -> span f b e ->
+    b <= fo -> fo <= e -> alookup fo (l_lines st) <> None \/ lr_get_linep st fo <> None.
+  Proof. intros [I _]. apply get_linep_complete0. exact I. Qed.
+
+  Lemma lr_insert_line_ok st ps b e : lr_inv st -> line_ok bs f ps b e ->
+    exists st', lr_insert_line bs st ps = Some (st', (l_nid st, ps)) /\ lr_inv st' /\
+                l_on st' = l_on st /\ l_lru st' = l_lru st.
+  Proof.
+    intros [I T] OK. destruct (lr_insert_line_ok0 st ps b e I OK) as (st' & E & I' & A & B).
+    exists st'. split; [exact E|]. split; [|split; assumption]. split; [exact I'|].
+    unfold lr_insert_line in E. destruct (line_fo_begin bs ps); [|discriminate]. destruct (line_fo_end bs ps); [|discriminate].
+    injection E as <-. exact T.
+  Qed.
+
+  Lemma lr_fresh_line_inv st ps st' s : lr_inv st -> lr_fresh_line st ps = (st', s) -> lr_inv st' /\ s = (l_nid st, ps).
+  Proof.
+    intros [I T] H. destruct (lr_fresh_line_inv0 _ _ _ _ I H) as [I' E]. split; [|exact E]. split; [exact I'|].
+    unfold lr_fresh_line in H. injection H as <- _. exact T.
+  Qed.
+
+  Theorem c_find_line_ok st fo st' r p : lr_inv st -> c_find_line bs f st fo = (st', r, p) ->
+    lr_inv st' /\ lres_ok fo r.
+  Proof.
+    intros [I T] H. destruct (c_find_line_ok0 _ _ _ _ _ I H) as (I' & _ & X). destruct (X T) as [T' R].
+    split; [split; assumption|exact R].
+  Qed.
+
+  (* find_line never panics and never runs out of fuel *)
+  Corollary c_find_line_total st fo st' r p : lr_inv st -> c_find_line bs f st fo = (st', r, p) ->
+    r <> Panic /\ r <> OutOfFuel.
+  Proof.
+    intros I H. destruct (c_find_line_ok _ _ _ _ _ I H) as [_ R]. unfold lres_ok in R.
+    destruct (fo <? lenN f); [destruct R as (s & -> & _)|subst r]; split; discriminate.
+  Qed.
+
+  Theorem c_find_line_in_block_ok st fo st' r part p : lr_inv st ->
+    c_find_line_in_block bs f st fo = (st', (r, part), p) -> lr_inv st' /\ lres_in_block_ok fo r.
+  Proof.
+    intros [I T] H. destruct (c_find_line_in_block_ok0 _ _ _ _ _ _ I H) as (I' & _ & X). destruct (X T) as [T' R].
+    split; [split; assumption|exact R].
+  Qed.
+
+  Lemma lr_drop_line_inv st s extra : lr_inv st -> lr_inv (lr_drop_line bs st s extra).
+  Proof. intros [I T]. split; [apply lr_drop_line_inv0; exact I|apply lr_drop_line_tot; exact T]. Qed.
+
+  Lemma lr_lru_enable_inv st : lr_inv st -> lr_inv (lr_lru_enable st).
+  Proof.
+    intros [I T]. split; [apply lr_lru_enable_inv0; exact I|]. unfold lr_lru_enable. destruct (l_on st); exact T.
+  Qed.
+
+  Lemma lr_lru_disable_inv st : lr_inv st -> lr_inv (lr_lru_disable st).
+  Proof. intros [I T]. split; [apply lr_lru_disable_inv0; exact I|exact T]. Qed.
+
+  Lemma lr_set_ext_inv e st : lr_inv st -> lr_inv (lr_set_ext e st).
+  Proof. apply lr_inv_maps; reflexivity. Qed.
 End LineReaderProofs.
